@@ -477,6 +477,13 @@ func runC12(c *Ctx) {
 		c.Unknown("C12.4", "grpcEncodeTimeout", "unit-table", encFn.Pos(), "could not extract the (size, unit) table of the gRPC timeout encoder")
 	} else {
 		var prm ssa.Value = encFn.Params[0]
+		nNoThreshold := 0
+		var maxSize int64
+		for i := range sizePhi.Edges {
+			if sz, ok := ConstInt(sizePhi.Edges[i]); ok && sz > maxSize {
+				maxSize = sz
+			}
+		}
 		for i := range sizePhi.Edges {
 			size, ok1 := ConstInt(sizePhi.Edges[i])
 			unit, ok2 := ConstInt(unitPhi.Edges[i])
@@ -493,13 +500,38 @@ func runC12(c *Ctx) {
 			pred := sizePhi.Block().Preds[i]
 			var k int64 = -1
 			for _, f := range FactsOnEdge(pred, sizePhi.Block()) {
-				if cmp, ok := f.AsCmp(); ok && cmp.Op == token.LSS && cmp.X == prm {
-					if v, isC := ConstInt(cmp.Y); isC && (k == -1 || v < k) {
+				cmp, ok := f.AsCmp()
+				if !ok {
+					continue
+				}
+				x, y, op := cmp.X, cmp.Y, cmp.Op
+				if y == prm {
+					x, y, op = y, x, flip(op)
+				}
+				if x != prm {
+					continue
+				}
+				if v, isC := ConstInt(y); isC {
+					// exclusive upper bound on the duration
+					switch op {
+					case token.LSS:
+					case token.LEQ:
+						v++
+					default:
+						continue
+					}
+					if k == -1 || v < k {
 						k = v
 					}
 				}
 			}
 			if k == -1 {
+				nNoThreshold++
+				if nNoThreshold > 1 || size != maxSize {
+					c.Bad("C12.4", "grpcEncodeTimeout", fmt.Sprintf("unit-threshold:%c", rune(unit)), sizePhi.Pos(),
+						fmt.Sprintf("unit %q has no recognisable upper threshold although it is not the largest unit: its value can need more than 8 digits", rune(unit)))
+					continue
+				}
 				// default row (largest unit) has no upper threshold
 				c.Trivial("C12.4", "grpcEncodeTimeout", fmt.Sprintf("unit-threshold:%c", rune(unit)), sizePhi.Pos(), "largest unit: no upper threshold")
 				continue
